@@ -86,7 +86,8 @@ def check_program(ctx: Ctx, init: FuncInfo):
         return
     if len(it) > 1 and "?" in it[1][1:]:
         # a gate on a qubit the typestate program cannot place is not evidence of a wrong circuit
-        raise AnchorError(init.short, f"after the oracle the iteration applies {it[1]}: an operand is a qubit expression outside the tables (the result qubit is known as `<oracle circuit>['_ret']`)")
+        ctx.undecided(init.short, f"after the oracle the iteration applies {it[1]}: an operand is a qubit expression outside the tables (the result qubit is known as `<oracle circuit>['_ret']`)")
+        return
     ctx.check(len(it) > 1 and it[1] == ("cz", "out", "phase"), "TS-PREP", init, "result qubit kicks its value onto the phase qubit", str(it[1]) if len(it) > 1 else "", f"after the oracle the iteration applies {it[1] if len(it) > 1 else None}, not one controlled-Z from `_ret` onto the phase qubit", init.node)
     diff = it[2:]
     regs = set()
